@@ -8,6 +8,10 @@ CHECKS = {
    text='Unbounded Coq theorems about an executable model of SymbolicOperator/QubitOperator arithmetic (simplify sound and canonical, *, +, -, scalar, ** are homomorphisms onto the action on basis states), the Pauli product table regenerated from the source and re-proved equal to the model table on every run, and a correspondence run of random aliasing programs over five operator classes (every variable dumped after every statement) evaluated by vm_compute inside Coq.',
    note='Trusted: Coq kernel+VM, gen.py, the harness serialisation; the hand model is tied to the code by the correspondence run only. Fermion/boson/quad/Ising/Majorana homomorphism theorems: see evidence theorems list; sympy coefficients not modelled.',
    tech='Coq proof (induction over words and dictionaries) + Gen obligations + vm_compute correspondence'),
+ 'C04': dict(cat='proof', design='3/C04',
+   text='Unbounded Coq theorems: the Jordan-Wigner model (a transcription of _jordan_wigner_fermion_operator on top of the proved QubitOperator arithmetic) denotes the Fock-space action of every FermionOperator (jw_ladder_sound, jw_sound, jw0_sound). Every other path (Hermitian InteractionOperator, DiagonalCoulombHamiltonian, jordan_wigner_one_body/two_body on all index coincidence patterns, reverse_jordan_wigner) is decided per input by the checker fermi_pauli_equiv, proved sound in Coq, run by vm_compute on the exact values returned by the implementation against a spec operator built by the harness.',
+   note='Unbounded proof for the FermionOperator path model; fast paths are translation-validated per input by a verified checker (not proved for all inputs). Dual-basis jellium helpers: float comparison. Trusted: kernel+VM, harness spec construction and serialisation.',
+   tech='Coq proof of JW soundness + verified equivalence checker (Pauli normal form) evaluated by vm_compute'),
 }
 def main():
     fixes = subprocess.run("git -C /repo log --format=%H --grep='^fix:'", shell=True, capture_output=True, text=True).stdout.split()
